@@ -35,6 +35,11 @@ L1RootLast == R.rootlast
 \* the host process is untouched and its other variables are invisible to scripts
 L1HostUnchanged == R.host = <<>>
 L1HostVarsInvisible == ~R.canary /\ R.leaked = <<>>
+\* the environment a script does see: the documented variables, Setup's additions, the GOCOVERDIR / GORACE pass-through
+L1DocumentedEnv == R.missing = <<>>
+\* a fresh work directory holds exactly the files of the archive (scripts whose first line is a probe)
+L1FreshWorkdir == \A k \in 1..Len(R.scripts) :
+     (R.scripts[k].lines[1] = "probe" /\ R.obs[R.scripts[k].name] # <<>>) => R.obs[R.scripts[k].name][1] = "cwd= V= files=/seed.txt"
 L1Terminates == R.end = "done" /\ \A n \in Names : R.verdict[n] \in {"pass", "fail", "skip"}
 
 Bad(name) == PrintT(<<"BAD", name, t>>)
@@ -46,4 +51,6 @@ InvL1RootLast == L1RootLast \/ Bad("L1RootLast")
 InvL1HostUnchanged == L1HostUnchanged \/ Bad("L1HostUnchanged")
 InvL1HostVarsInvisible == L1HostVarsInvisible \/ Bad("L1HostVarsInvisible")
 InvL1Terminates == L1Terminates \/ Bad("L1Terminates")
+InvL1DocumentedEnv == L1DocumentedEnv \/ Bad("L1DocumentedEnv")
+InvL1FreshWorkdir == L1FreshWorkdir \/ Bad("L1FreshWorkdir")
 =============================================================================
